@@ -824,6 +824,10 @@ func ruleLayoutOnly(c *Ctx) {
 				c.ok(key, st.Pos(), "set to nil")
 				return
 			}
+			if truncatedToEmpty(st.Val, w.pendings) {
+				c.ok(key, st.Pos(), "emptied in place (pending[:0])")
+				return
+			}
 			if app, ok := isBuiltinCall(st.Val, "append"); ok && len(app.Call.Args) == 2 {
 				if _, ok := isFieldLoad(app.Call.Args[0], w.pendings); ok {
 					if el, ok := sliceLitElems(app.Call.Args[1]); ok {
